@@ -178,6 +178,11 @@ class ValueGen:
         self.depth += 1
         elems = [mk() for _ in range(n)]
         self.depth -= 1
+        if (self.fault == "elem_out" and self.injected is None and f["width"] is not None and elems
+                and backing(f["width"]) != f["width"]):
+            j = rng.randrange(len(elems))
+            elems[j] = scalar_value(rng, f["width"], "out")
+            self.injected = ("elem_out", fid, j, elems[j])
         if "esize" in lim and elems and isinstance(elems[0], dict):
             # elements must share their encoded size: replicate the first element's shape
             if not (self.fault == "esize_mismatch" and self.injected is None and len(elems) > 1):
